@@ -30,6 +30,16 @@ Proof.
 Qed.
 Print Assumptions C03_include_coord_fold_exact.
 
+(* ... and it is the least such box: every box that contains the stored tiles of the level contains
+   it, so the advertised level box is exactly the bounding box of the stored tiles *)
+From VT Require Import Proofs.CoverageExact.
+Theorem C03_include_coord_fold_least :
+  forall tiles z d, z <= 31 -> tiles_ok tiles ->
+    (forall t, In t tiles -> cz (fst t) = z -> In_box d (cx (fst t)) (cy (fst t))) ->
+    forall u v, In_box (leaf_cov tiles z) u v -> In_box d u v.
+Proof. exact leaf_cov_least. Qed.
+Print Assumptions C03_include_coord_fold_least.
+
 (* overlay: the coverage contains the coverage of every source (union) *)
 Theorem C03_overlay_union :
   forall ss z, z <= 31 -> Forall good ss -> ss <> [] ->
